@@ -105,6 +105,16 @@ add("C13", "Sharing.tla: TLC explores every sequence of emitter / parser calls o
     "DESIGN.md 5.2, 8 C13")
 
 
+add("C17", "Prose.tla enumerates every case (write/read x 9 prefix classes x 4 announcement phrases + none x 17 value classes x 3 suffixes x declared "
+    "type x removal on/off; 6,962 well-formed cases) and states ValueBack / TypeBack / ProseBack / Untouched as a total expected outcome; TLC checks "
+    "the laws are well defined and exports the cases; each is realised with concrete text (2 tables) and run through the real set_default_doc / "
+    "extract_default; TLC validates the observed outcome (ProseTrace.tla).",
+    "Trusted: TLC, the concretisation tables and outcome classifier (vf/prose_check.py). The state space is small: the specification contributes the "
+    "case analysis and the laws, the weight of evidence is one real call per case (DESIGN 5.5).",
+    "TLA+ spec (Prose.tla case analysis + laws) checked and enumerated by TLC; one real call per TLC-exported case validated by TLC (ProseTrace.tla)",
+    "DESIGN.md 5.5, 8 C17")
+
+
 def main():
     props = [json.loads(l)["id"] for l in open(os.path.join(HERE, "properties.jsonl"))]
     m = {
